@@ -313,10 +313,11 @@ def check_tamper(case):
 
 # ---------------------------------------------------------------- termination on boundary arguments
 
-TB = [-2 ** 40, -37, -2, -1, -0.5, 0, 0.5, 0.999, 1, 1.01, 1.5, 1.9, 2, 2.5, 36, 36.5, 37, 3999, 4000, 2 ** 39, 10 ** 15, float('inf'), float('-inf'), float('nan'), '', 'a', 'aaa', '12', '1.5', None, True, False]
+TB = [-2 ** 40, -37, -2, -1, -0.5, 0, 0.5, 0.999, 1, 1.01, 1.5, 1.9, 2, 2.5, 36, 36.5, 37, 3999, 4000, 2 ** 39, 10 ** 15, float('inf'), float('-inf'), float('nan'), '', 'a', 'aaa', '12', '1.5', None, True, False, '~', 'a~a*']
+TB_SMALL = [-1, 0, 0.5, 1, 1.5, 2, float('inf'), float('nan'), '', 'a', 'aaa', None, '~', 'a~a*']       # the values that decide loop bounds: all combinations of these at arity 3 and 4
 TFUNCS = [('BASE', 2), ('BASE', 3), ('ROMAN', 1), ('ROMAN', 2), ('ARABIC', 1), ('SUBSTITUTE', 3), ('SUBSTITUTE', 4), ('TEXT', 2), ('DEC2HEX', 1), ('DEC2HEX', 2), ('HEX2DEC', 1), ('DECIMAL', 2), ('CHAR', 1),
           ('ROUND', 2), ('ROUNDUP', 2), ('ROUNDDOWN', 2), ('CEILING', 2), ('FLOOR', 2), ('MOD', 2), ('QUOTIENT', 2), ('EDATE', 2), ('DATE', 3), ('TIME', 3), ('LEFT', 2), ('MID', 3), ('INDEX', 3), ('MATCH', 3), ('LARGE', 2),
-          ('CHOOSE', 2), ('RANDBETWEEN', 2), ('PV', 3), ('WEEKDAY', 2), ('DATEDIF', 3), ('TEXTJOIN', 3), ('LOG', 2), ('POWER', 2), ('COMPLEX', 2)]
+          ('CHOOSE', 2), ('RANDBETWEEN', 2), ('PV', 3), ('WEEKDAY', 2), ('DATEDIF', 3), ('TEXTJOIN', 3), ('LOG', 2), ('POWER', 2), ('COMPLEX', 2), ('COUNTIF', 2), ('SUMIF', 2), ('SUMIF', 3), ('AVERAGEIF', 2), ('REPLACE', 4), ('FIND', 3), ('SEARCH', 3), ('REPT', 2)]
 
 
 def enum_term(tier, shard, nshards):
@@ -328,6 +329,9 @@ def enum_term(tier, shard, nshards):
         else:
             # arity 3/4: every pair of boundary values in the first two slots, later slots cycling through the pool
             tuples = (t + tuple((t[0] * 5 + t[1] * 3 + k * 7) % len(TB) for k in range(ar - 2)) for t in itertools.product(rng, repeat=2))
+            # ... and every combination of the loop-deciding values in all slots (of the whole pool in the thorough tier, at arity 3)
+            small = [TB.index(v) if v == v else 23 for v in TB_SMALL]
+            tuples = itertools.chain(tuples, itertools.product(small, repeat=ar), itertools.product(rng, repeat=ar) if tier == 'thorough' and ar == 3 else ())
         for tup in tuples:
             i += 1
             if i % nshards == shard:
@@ -342,7 +346,7 @@ def check_term(case):
     # size-like arguments (places, counts, exponents, digits) of astronomic magnitude cost memory/time inside C primitives, which no
     # line count can observe (DEC2HEX(1, 2^39) asks for a 550 GB string): bounded by construction, see ASSUMPTIONS
     size_args = {'BASE': [2], 'DEC2HEX': [1], 'CHAR': [0], 'LEFT': [1], 'MID': [1, 2], 'ROUND': [1], 'ROUNDUP': [1], 'ROUNDDOWN': [1], 'POWER': [1], 'TEXT': [0, 1], 'TEXTJOIN': [0, 1, 2],
-                 'SUBSTITUTE': [3], 'RANDBETWEEN': [], 'PV': [1], 'DATE': [], 'TIME': []}
+                 'SUBSTITUTE': [3], 'RANDBETWEEN': [], 'PV': [1], 'DATE': [], 'TIME': [], 'REPT': [1]}
     for k in size_args.get(name, []):
         if k < len(vals) and huge(vals[k]):
             raise Skip('big-integer-cost')
@@ -361,10 +365,10 @@ def check_term(case):
 def pool():
     err = xl()
     return [None, True, False, 0, 1, -1, 2, 37, 255, 2.5, -0.5, 43000, float('inf'), float('nan'), '', 'qxz', '12', '1.5', '2019-11-20',
-            datetime.datetime(2019, 11, 20, 6, 0, 0), [1, 2, 3], [[1, 2], [3, 4]], [], err.NOT_AVAILABLE]
+            datetime.datetime(2019, 11, 20, 6, 0, 0), [1, 2, 3], [[1, 2], [3, 4]], [], err.NOT_AVAILABLE, 'q~z*', ['q~', 'qxz', '~']]
 
 
-NP = 24
+NP = 26
 
 
 def enum_arity(tier, shard, nshards):
